@@ -35,8 +35,9 @@ def start_state_obligations(src, mir, bins):
         elif fld == 'players':
             vals.append(PyObj('vec', items=[hr]))
         else:
+            # an arbitrary previous window: a second scope() call must simply replace it
             w = itermodel.int_width(ty)
-            vals.append(Int(0, w))
+            vals.append(Int(z3.BitVec('prev_' + fld, w), w))
     ev = Agg('FlopExhaustiveEvaluator', vals)
     cell = Cell('ev', ev)
     res = run_fn(M, f_scope, [Ref(cell, []), Int(tf, 8), Int(rf, 8), Int(tt, 8), Int(rt, 8)], pc)
